@@ -51,7 +51,9 @@ CLAIMED["C02"] = dict(
          "stays ahead of every entry never attempted (C02_requeued_first, C02_requeued_prefix). Props/C02At4, C02At5: over the API models, for every state, call "
          "and argument, the retry policy is NON_IDEMPOTENT exactly for the accumulating commands and every own-initiative request (handshake, refresh, "
          "heartbeat, poll, error-info) is sent with the CONNECTED policy; on the real API objects every sent message's policy is judged against the "
-         "vendor reading of its frame (toggle / change / increase / decrease => no retry).",
+         "vendor reading of its frame (toggle / change / increase / decrease => no retry). Full stack (implementation side only: the model's atomic "
+         "blocks are those of the default task factory): a call held up on a congested link that is then lost, under the default and the eager "
+         "task factory - at most 1 + retries transmissions, each on another connection, and a retry when the held-up write failed.",
     design_ref="DESIGN.md section 7, C02",
     technique="Lean 4 proof (trace invariants over all schedules) + trace validation + Spec monitors on recorded runs incl. expiry-boundary scripts",
     note=SOCK_NOTE)
@@ -169,7 +171,7 @@ CLAIMED["C18"] = dict(
          "and name (commas in the AirTouch 5 name preserved); the request echo, wrong part counts, misplaced marker, invalid UTF-8 add "
          "nothing; for every arrival list the search sends at 0, 0.5, 1.0 s at most, only while nothing was collected, returns at the "
          "end of the first interval with a response, at the latest at 1.5 s (total by structural recursion), and returns exactly the "
-         "distinct valid responses; factory ports 9004 / 9005 and names. Tie: the real AirTouchDiscoverer.search() and "
+         "distinct valid responses - independently of how the arrivals are listed (duplicated datagrams, order within an instant: C18_search_listing_independent), each answering console counted exactly once (C18_each_answering_console_once); factory ports 9004 / 9005 and names. Tie: the real AirTouchDiscoverer.search() and "
          "factory.discover() on the virtual clock with a fake UDP endpoint, compared with the model and judged by the Spec.",
     design_ref="DESIGN.md section 7, C18",
     technique="Lean 4 proof (model = vendor-format specification for all datagrams and arrival lists) + differential against the real search on a virtual clock",
